@@ -90,6 +90,10 @@ pub open spec fn chain_ok(r: TableRefresh, t: Timer<ScheduledTaskCheck>) -> bool
     && (r.next_refresh is Some ==> r.next_refresh->0.id < t.next_id
             && (t.pending@.contains_key(r.next_refresh->0) ==> t.pending@[r.next_refresh->0] is TableRefresh))
 }
+/// C11: a node a refresh round may ping: questionable standing and not queried by us in the recent past
+pub open spec fn refresh_candidate(h: NodeHandle) -> bool {
+    exists|n: Node| #[trigger] n.handle == h && spec_status(n) == NodeStatus::Questionable && !spec_recent(n)
+}
 /// a refresh query: find_node with an 8-byte transaction id carrying the refresh action's 5-byte prefix
 pub open spec fn refresh_query(m: Message, action: u64) -> bool {
     m.transaction_id@.len() == 8 && (m.body matches MessageBody::Request(Request::FindNode(_)))
@@ -108,7 +112,7 @@ impl TableRefresh {
     }
 //@end
 
-//@begin fn src/action/refresh.rs impl:TableRefresh continue_refresh rules=R-deasync props=C18,C19
+//@begin fn src/action/refresh.rs impl:TableRefresh continue_refresh rules=R-deasync props=C18,C19,C11
     #[verifier::loop_isolation(false)]
     pub fn continue_refresh(
         &mut self,
@@ -118,12 +122,16 @@ impl TableRefresh {
     )
         requires old(self).curr_refresh_bucket <= 160, chain_ok(*old(self), *old(timer)),
         ensures final(self).curr_refresh_bucket <= 160, // @C18.cursor_stays_in_range
+            // C11: the round looks at the neighbourhood of the next bucket: the cursor advances by one bucket per round and wraps after bucket 159
+            final(self).curr_refresh_bucket == (if old(self).curr_refresh_bucket == 160 { 0int } else { old(self).curr_refresh_bucket as int }) + 1, // @C11.cursor_advances_one_bucket_per_round
+            // C11: only questionable nodes that were not queried recently are pinged
+            forall|i: int| old(tr).ev.len() <= i < final(tr).ev.len() && #[trigger] final(tr).ev[i] is Send ==> (exists|h: NodeHandle| #[trigger] refresh_candidate(h) && h.addr == final(tr).ev[i]->Send_1), // @C11.a_refresh_round_pings_only_questionable_nodes_not_queried_recently
             chain_ok(*final(self), *final(timer)), // @C18.single_refresh_chain
             final(self).id_generator.action_id == old(self).id_generator.action_id,
             // exactly one refresh round is pending afterwards, 6 s ahead
             final(self).next_refresh is Some && final(timer).pending@.contains_key(final(self).next_refresh->0)
                 && final(timer).pending@[final(self).next_refresh->0] is TableRefresh
-                && final(self).next_refresh->0.deadline.t as int == tclock() + 6_000_000_000, // @C18.next_round_scheduled_6s_ahead
+                && final(self).next_refresh->0.deadline.t as int == tclock() + 6_000_000_000, // @C18.next_round_scheduled_6s_ahead @C11.refresh_reschedules_itself_every_6_s
             // every other timeout is untouched
             forall|k: Timeout| !(old(timer).pending@.contains_key(k) && old(timer).pending@[k] is TableRefresh) && k != final(self).next_refresh->0
                 ==> (final(timer).pending@.contains_key(k) == old(timer).pending@.contains_key(k) && (old(timer).pending@.contains_key(k) ==> final(timer).pending@[k] == old(timer).pending@[k])), // @C18.other_timeouts_untouched
@@ -147,11 +155,12 @@ impl TableRefresh {
             let num_questionable_nodes = table.num_questionable_nodes();
             let nodes_to_contact = table
                 .closest_nodes(target_id)
-                .filter(|n: &&Node| -> (b: bool) { n.status() == NodeStatus::Questionable })
-                .filter(|n: &&Node| -> (b: bool) { !n.recently_requested_from() })
+                .filter(|n: &&Node| -> (b: bool) ensures b == (spec_status(**n) == NodeStatus::Questionable) { n.status() == NodeStatus::Questionable })
+                .filter(|n: &&Node| -> (b: bool) ensures b == !spec_recent(**n) { !n.recently_requested_from() })
                 .take(REFRESH_CONCURRENCY)
-                .map(|node: &Node| -> (h: NodeHandle) { *node.handle() })
+                .map(|node: &Node| -> (h: NodeHandle) ensures h == node.handle { *node.handle() })
                 .collect::<Vec<_>>();
+            assert(forall|i: int| 0 <= i < nodes_to_contact@.len() ==> refresh_candidate(#[trigger] nodes_to_contact@[i])); // @C11.a_refresh_round_pings_only_questionable_nodes_not_queried_recently
 
             (
                 this_node_id,
@@ -165,6 +174,8 @@ impl TableRefresh {
         // Ping the closest questionable nodes
         for node in it: nodes_to_contact
             invariant it.snapshot@.remaining().len() <= 4, 0 <= it.index@ <= it.snapshot@.remaining().len(),
+                forall|i: int| 0 <= i < it.snapshot@.remaining().len() ==> refresh_candidate(#[trigger] it.snapshot@.remaining()[i]),
+                forall|i: int| ev0.len() <= i < tr.ev.len() && #[trigger] tr.ev[i] is Send ==> (exists|h: NodeHandle| #[trigger] refresh_candidate(h) && h.addr == tr.ev[i]->Send_1), // @C11.a_refresh_round_pings_only_questionable_nodes_not_queried_recently
                 self.curr_refresh_bucket == old(self).curr_refresh_bucket || self.curr_refresh_bucket == 0, self.curr_refresh_bucket < 160,
                 self.next_refresh == old(self).next_refresh, self.id_generator.action_id == old(self).id_generator.action_id,
                 *timer == *old(timer),
@@ -538,7 +549,7 @@ impl DhtHandler {
     }
 //@end
 
-//@begin fn src/handler.rs impl:DhtHandler handle_incoming_response rules=R-deasync props=C05,C12,C04
+//@begin fn src/handler.rs impl:DhtHandler handle_incoming_response rules=R-deasync props=C05,C12,C04,C11
     pub fn handle_incoming_response(
         &mut self,
         trans_id: TransactionID,
@@ -555,7 +566,7 @@ impl DhtHandler {
                 ==> res is Err && final(tr).ev == old(tr).ev, // @C12.unknown_action_prefix_rejected
             // accepted response: the responder is offered as good, the nodes it names (own family) as hearsay; then the search reacts
             res is Ok ==> delta(old(tr).ev, final(tr).ev).len() >= 1
-                && delta(old(tr).ev, final(tr).ev)[0] == Ev::TableAdd(NodeHandle { id: rsp.id, addr }, (if sa_is_v4(old(self).socket.local_addr) { rsp.nodes_v4@ } else { rsp.nodes_v6@ })), // @C12.responder_good_named_nodes_hearsay
+                && delta(old(tr).ev, final(tr).ev)[0] == Ev::TableAdd(NodeHandle { id: rsp.id, addr }, (if sa_is_v4(old(self).socket.local_addr) { rsp.nodes_v4@ } else { rsp.nodes_v6@ })), // @C12.responder_good_named_nodes_hearsay @C11.an_accepted_answer_re_admits_the_responder_as_good
             sends_only_requests(old(tr).ev, final(tr).ev), // @C05.responses_never_answered
     {
         broadcast use vstd::std_specs::hash::group_hash_axioms, actionid_key_model;
@@ -797,13 +808,13 @@ impl DhtHandler {
     }
 //@end
 
-//@begin fn src/handler.rs impl:DhtHandler handle_check_table_refresh rules=R-deasync props=C18
+//@begin fn src/handler.rs impl:DhtHandler handle_check_table_refresh rules=R-deasync props=C18,C11
     pub fn handle_check_table_refresh(&mut self, Tracked(tr): Tracked<&mut Trace>)
         requires old(self).hinv(),
         ensures final(self).hinv(), final(self).frame_non_refresh(*old(self)),
             final(self).initial_bootstrap_done == old(self).initial_bootstrap_done, final(self).pending_lookups == old(self).pending_lookups,
             final(self).bootstrap_txs == old(self).bootstrap_txs, final(self).next_bootstrap_txs_id == old(self).next_bootstrap_txs_id,
-            final(self).one_refresh_pending(), // @C18.next_round_scheduled_6s_ahead
+            final(self).one_refresh_pending(), // @C18.next_round_scheduled_6s_ahead @C11.refresh_reschedules_itself_every_6_s
             only_requests_and_yields(old(tr).ev, final(tr).ev), final(tr).ev.len() <= old(tr).ev.len() + 8, // @C18.round_is_at_most_4_queries
     {
         self.refresh
@@ -837,11 +848,11 @@ impl DhtHandler {
     }
 //@end
 
-//@begin fn src/handler.rs impl:DhtHandler handle_bootstrap_success rules=R-deasync props=C18,C16
+//@begin fn src/handler.rs impl:DhtHandler handle_bootstrap_success rules=R-deasync props=C18,C16,C11
     pub fn handle_bootstrap_success(&mut self, Tracked(tr): Tracked<&mut Trace>)
         requires old(self).hinv(),
         ensures final(self).hinv(), // @C18.single_refresh_chain
-            final(self).one_refresh_pending(), // @C18.one_round_per_bootstrap_completion
+            final(self).one_refresh_pending(), // @C18.one_round_per_bootstrap_completion @C11.refresh_starts_at_bootstrap_completion
             final(self).bootstrap_txs@.len() == 0 && waiters_ok(*final(self)), // @C15.every_waiter_is_handed_to_the_notifier
             // C16: every search queued before the initial bootstrap finished is started now, in order; none stays queued
             final(self).initial_bootstrap_done && final(self).pending_lookups@.len() == 0, // @C16.queue_emptied_at_bootstrap_completion
@@ -882,7 +893,7 @@ impl DhtHandler {
     }
 //@end
 
-//@begin fn src/handler.rs impl:DhtHandler handle_timeout rules=R-deasync props=C18,C05
+//@begin fn src/handler.rs impl:DhtHandler handle_timeout rules=R-deasync props=C18,C05,C11
     pub fn handle_timeout(&mut self, token: ScheduledTaskCheck, Tracked(tr): Tracked<&mut Trace>)
         requires old(self).hinv(),
         ensures final(self).hinv(), // @C18.single_refresh_chain
